@@ -361,6 +361,43 @@ func init() {
 				judge(c, &in)
 			}
 		}
+		c.Phase("locktime-grid") // CHECKLOCKTIMEVERIFY / CHECKSEQUENCEVERIFY: operand encodings x flag sets x transaction lock time / sequence / version
+		{
+			h := func(s string) []byte { b, _ := vectors.ParseShort(s); return b }
+			operands := [][]byte{h("0"), h("0x01 0x00"), h("0x01 0x80"), h("1"), h("0x02 0x0100"), h("100"), h("0x02 0x6400"), h("0x05 0x0100000000"), h("0x05 0xffffffff7f"), h("0x06 0x010000000000"),
+				h("-1"), h("499999999"), h("500000000"), h("4194304"), h("4194404"), h("65535"), h("65536"), h("0x05 0x0000008000"), h("0x05 0x6400008000"), h("1 2 NUM2BIN")}
+			n := uint64(0)
+			for _, opnd := range operands {
+				for _, op := range []byte{0xb1, 0xb2} {
+					for fi := 0; fi < 16; fi++ {
+						fl := uint32(0)
+						if fi&1 != 0 {
+							fl |= uint32(scriptflag.VerifyCheckLockTimeVerify)
+						}
+						if fi&2 != 0 {
+							fl |= uint32(scriptflag.VerifyCheckSequenceVerify)
+						}
+						if fi&4 != 0 {
+							fl |= uint32(scriptflag.VerifyMinimalData)
+						}
+						if fi&8 != 0 {
+							fl |= uint32(scriptflag.UTXOAfterGenesis)
+						}
+						for _, lt := range []uint32{0, 100, 499999999, 500000000, 0xffffffff} {
+							for _, sq := range []uint32{0, 100, 1<<22 | 100, 0xfffffffe, 0xffffffff, 1 << 31} {
+								n++
+								if !c.Case(n) {
+									continue
+								}
+								in := progInput{Unlock: opnd, Lock: []byte{op, 0x75, 0x51}, Flags: fl, Src: "locktime-grid",
+									Ctx: progCtx{HasTx: true, Version: 1 + uint32(n%2), LockTime: lt, Sequence: sq, Sats: 1000}}
+								judge(c, &in)
+							}
+						}
+					}
+				}
+			}
+		}
 		c.Phase("limits") // programs sitting exactly on the consensus limits of each era, and one beyond
 		for i, in := range c05Limits() {
 			if c.Case(uint64(i)) {
